@@ -73,6 +73,10 @@ def gen(ch):
     ob = dict(type="OrderBook", name="ob", nodes=["n1"],
               orders=dict(start=[g.instant_iso(s) for (s, e), c, p in O], end=[g.instant_iso(e) for (s, e), c, p in O],
                           capa=[S.r(c, g) for _, c, p in O], price=[p for _, c, p in O]))
+    if ch.pick("whole_numbers", [False, True]) and g.mtu == "h":
+        # capacities and prices as python ints (an order table typed in by hand)
+        ob["orders"]["capa"] = [int(round(c * 2)) for _, c, p in O]
+        ob["orders"]["price"] = [int(round(p + 0.5)) for _, c, p in O]
     if ch.pick("duplicate", [False, True]):   # the same offer twice: two orders, two execution variables
         for key in ("start", "end", "capa", "price"):
             ob["orders"][key] = ob["orders"][key] + [ob["orders"][key][0]]
